@@ -40,6 +40,8 @@ pub struct CorpusSpec {
     pub shards: usize,
     /// body of main: receives `entries: Vec<vrt::explore::Entry>`
     pub main_call: String,
+    /// build darling with its `suggestions` feature
+    pub suggestions: bool,
 }
 
 /// Writes the shard crates (only files whose content changed) and returns their package names.
@@ -57,7 +59,8 @@ pub fn generate(spec: &CorpusSpec) -> Vec<String> {
         let pkg = format!("{}_{k}", spec.name);
         let dir = harness_dir().join("gen").join(&pkg);
         let toml = format!(
-            "[package]\nname = \"{pkg}\"\nversion = \"0.0.0\"\nedition = \"2021\"\n[dependencies]\nvmodel = {{ path = \"../../vmodel\" }}\nvrt = {{ path = \"../../vrt\" }}\ndarling = {{ workspace = true }}\nsyn = {{ workspace = true }}\n"
+            "[package]\nname = \"{pkg}\"\nversion = \"0.0.0\"\nedition = \"2021\"\n[dependencies]\nvmodel = {{ path = \"../../vmodel\" }}\nvrt = {{ path = \"../../vrt\" }}\ndarling = {{ workspace = true{} }}\nsyn = {{ workspace = true }}\n",
+            if spec.suggestions { ", features = [\"suggestions\"]" } else { "" }
         );
         write_if_changed(&dir.join("Cargo.toml"), &toml);
         let mut src = String::from("#![allow(dead_code, non_snake_case, unused_variables, unused_mut, non_camel_case_types, clippy::all)]\n");
@@ -135,6 +138,7 @@ pub fn struct_corpus(tier: Tier) -> CorpusSpec {
         programs: vmodel::corpus::small_corpus(thorough),
         shards: if thorough { 16 } else { 8 },
         main_call: "vrt::explore::main(entries);".into(),
+        suggestions: true,
     }
 }
 
@@ -146,6 +150,7 @@ pub fn enum_corpus(tier: Tier) -> CorpusSpec {
         programs: vmodel::corpus::enum_corpus(thorough),
         shards: if thorough { 16 } else { 8 },
         main_call: "vrt::explore::main(entries);".into(),
+        suggestions: true,
     }
 }
 
@@ -157,6 +162,18 @@ pub fn attr_corpus(tier: Tier) -> CorpusSpec {
         programs: vmodel::corpus::attr_corpus(thorough),
         shards: 8,
         main_call: "vrt::explore::main(entries);".into(),
+        suggestions: true,
+    }
+}
+
+pub fn sugg_corpus(on: bool) -> CorpusSpec {
+    CorpusSpec {
+        name: format!("sugg_{}", if on { "on" } else { "off" }),
+        programs_expr: "vmodel::corpus::sugg_corpus()".into(),
+        programs: vmodel::corpus::sugg_corpus(),
+        shards: 1,
+        main_call: "vrt::explore::main(entries);".into(),
+        suggestions: on,
     }
 }
 
